@@ -51,6 +51,8 @@ def place_value(f, p, st):
             v = v if v[3] == e["i"] else ("opaque", "downcast to another variant")
         elif e["k"] == "field" and v[0] == "adt" and e["i"] < len(v[4]):
             v = v[4][e["i"]]
+        elif e["k"] == "field" and v[0] == "tup" and e["i"] < len(v[1]):
+            v = v[1][e["i"]]
         else:
             v = ("proj", v, e["k"], e.get("n", e.get("i")))
     return v
@@ -77,6 +79,8 @@ def rvalue_value(f, rv, st, ty):
     if k == "discr":
         v = place_value(f, rv["p"], st)
         return ("const", v[3]) if v[0] == "adt" else ("discr", v)
+    if k == "agg" and rv.get("agg") == "tuple":
+        return ("tup", tuple(operand_value(f, o, st) for o in rv["ops"]))
     if k == "agg" and rv.get("agg") == "adt":
         return ("adt", rv["adt"], rv["variant"], rv.get("vidx", 0), tuple(operand_value(f, o, st) for o in rv["ops"]))
     return ("opaque", k)
@@ -108,6 +112,11 @@ def symbols(v, leaf):
     if v[0] == "adt":
         out = set()
         for y in v[4]:
+            out |= symbols(y, leaf)
+        return out
+    if v[0] == "tup":
+        out = set()
+        for y in v[1]:
             out |= symbols(y, leaf)
         return out
     out = set()
